@@ -9,7 +9,7 @@ CLAIMED = True
 PROP = dict(
     proof_modules=["VrpProofs.C02", "VrpProofs.Machine"],
     model_modules=["VrpModel.Machine", "VrpModel.Prag", "VrpModel.Spec"],
-    drv="drv_c01", bin="c01", share_run=True,
+    drv="drv_c01", bin="c01", share_run=True, corpus_ids=["C01", "C02", "C03"],
     compare=S.make_compare("partition"), nontrivial=S.nontrivial, extra_evidence=S.extra, rule=S.RULE,
     modelled="SolutionContext bookkeeping as an abstract machine: apply_insertion_success (existing/fresh route), try_remove_job (locked "
              "refused), whole-route removal, finalize_unassigned, prepare_insertion_ctx, conditional jobs, remove_empty_routes, Solution::from",
